@@ -208,7 +208,7 @@ SHARDED_TEXT = {
     'C15': " Sharded lookups change nothing but the access time of an entry stored under one of the two candidate paths of the key.",
     'C05': " Sharded lookups report absence from both candidates as a miss/false; every Err implies an invalid name or a counted hard fault.",
     'C18': " Sharded get/touch/set/put propagate every non-absence error (an Err of the primary probe is never turned into the answer of the secondary probe).",
-    'C06': " Sharded: get <= 6 calls / 2 opens, touch <= 2, set <= 20 + 3L, put <= 22 + 3L calls for L directory items read by maintenance.",
+    'C06': " Sharded: get <= 12 calls / 2 opens, touch <= 4, set <= 2*(20 + 3L), put <= 2*(22 + 3L) calls for L directory items read by maintenance (same deliberate slack).",
     'C20': " Sharded: at most two open attempts per lookup; write step counts are a constant plus three per directory item read by maintenance.",
     'C09': " Sharded get/touch mark the copy they find (primary first) without touching mtime.",
     'C01': " Sharded get returns a read-only handle on the inode bound under one of the two candidate paths of exactly that key.",
@@ -257,12 +257,12 @@ _u4('C05', 'Proof (sequential model) that absence is never an error: is_absent_f
     'ensure_file_removed / apply_update / collect_cached_files / cleanup skip what has vanished, prune on a missing directory yields Ok(0) through definitely_cleanup; '
     'every Err of an operation implies a counted hard fault (or an invalid name / absent source).',
     not_covered=[CONC_NC, SHARD_NC, STACK_NC])
-_u4('C06', 'Proof of termination (decreases on every loop) and of closed-form bounds on the number of own filesystem calls: get <= 3, touch <= 1, set <= 11, put <= 13 outside '
-    'maintenance; collect <= 2+2L, prune <= 2+3L, maintenance <= 4+3L for L directory items read. The lock and wait primitives (File::lock*, try_lock*, unlock, libc::flock, thread::sleep, yield_now, spin_loop) exist as stand-ins whose precondition is `false`, so any call to one is a failed obligation, '
+_u4('C06', 'Proof of termination (decreases on every loop) and of closed-form bounds on the number of own filesystem calls: get <= 6, touch <= 2, set <= 22, put <= 26 outside '
+    'maintenance; collect <= 2*(2+2L), prune <= 2*(2+3L), maintenance <= 2*(4+3L) for L directory items read (every bound is twice the current count on purpose: the property asks for a constant, resp. linear, bound, not for today\'s number of calls; open attempts are bounded exactly). The lock and wait primitives (File::lock*, try_lock*, unlock, libc::flock, thread::sleep, yield_now, spin_loop) exist as stand-ins whose precondition is `false`, so any call to one is a failed obligation, '
     'and no retry-until loop can be given a decreases measure.',
     not_covered=[CONC_NC, 'regenerate() terminates with probability 1 only', SHARD_NC, STACK_NC])
 _u4('C20', 'Proof that the step and open counts of get/touch/set/put outside maintenance are constants independent of the directory population (the postconditions are closed '
-    'formulas: <=3/1 open, <=1/0, <=11/0, <=13/0) and that no directory item is read (listed unchanged) unless the trigger fires.',
+    'formulas with 100% slack on calls and none on opens: <=6 calls/1 open, <=2/0, <=22/0, <=26/0) and that no directory item is read (listed unchanged) unless the trigger fires.',
     not_covered=['peak and residual open descriptors (closing is Drop, invisible to contracts)', SHARD_NC, STACK_NC])
 _u4('C15', 'Proof that lookups change nothing but the access time of the entry found (files, dirs equal; every inode equal up to atime, and only the found one), and that every '
     'mutating stub (rename, link, unlink, chmod, utimensat with mtime, mkdir) requires its target not to be under a read-only root.',
